@@ -349,6 +349,117 @@ example : (callFunc [{ name := "r", params := [], ret := Ty.int, body := [.retur
     .err Gen.EXC_RT_RECURSION_LIMIT [] :=
   (direct_recursion_stops_at_limit _ "r" _ (by with_unfolding_all rfl) rfl 255 0 (by decide) 0 {} (by decide)).1
 
+/-- **Runaway recursion through ANY cycle of functions stops with RECURSION_LIMIT at depth exactly `Gen.RECURSION_LIMIT`** — direct
+recursion (`S = [f]`), mutual recursion (`S = [p, q]`, p calls q calls p) and every longer cycle: `S` is a set of function names, each
+bound in the table to a function whose body is `return <some name of S>();`. For every function table, every exception clause lists
+(the error is not catchable), every depth `d` the chain is entered at (= every number of frames a wrapper put below it), every caller
+state `s` (= every history: nothing of `s` but the budget is read): a call of any member of `S` at depth `d` runs exactly
+`n = RECURSION_LIMIT - d` body statements — one `return` per level, the budget counts them — and ends with the recursion-limit error:
+the call attempted at depth `RECURSION_LIMIT` raises it before any argument or body statement of a deeper level runs. -/
+theorem runaway_cycle_stops_at_limit (funcs : List Func) (S : List String)
+    (hS : ∀ nm ∈ S, ∃ f nxt, funcs.find? (fun g => g.name == nm && g.params.length == 0) = some f ∧ nxt ∈ S ∧
+      f.body = [.returnS (some (.fcall nxt []))]) :
+    ∀ (n d : Nat), d + n = Gen.RECURSION_LIMIT → ∀ nm ∈ S, ∀ (h : Nat) (s : St), n ≤ s.budget →
+      (callFunc funcs d (5 * n + 1 + h) nm [] s).1 = .err Gen.EXC_RT_RECURSION_LIMIT [] ∧
+      (callFunc funcs d (5 * n + 1 + h) nm [] s).2.budget = s.budget - n := by
+  intro n
+  induction n with
+  | zero =>
+    intro d hd nm hnm h s _
+    obtain ⟨f, nxt, hf, _, _⟩ := hS nm hnm
+    have : d = Gen.RECURSION_LIMIT := by omega
+    subst this
+    have e : 5 * 0 + 1 + h = h + 1 := by omega
+    rw [e]
+    have : callFunc funcs Gen.RECURSION_LIMIT (h + 1) nm [] s = (.err Gen.EXC_RT_RECURSION_LIMIT, s) := by
+      simp [callFunc, hf, failE]
+    rw [this]; exact ⟨rfl, by simp⟩
+  | succ n ih =>
+    intro d hd nm hnm h s hb
+    obtain ⟨f, nxt, hf, hnxt, hbody⟩ := hS nm hnm
+    have hdl : (d == Gen.RECURSION_LIMIT) = false := by
+      have : d ≠ Gen.RECURSION_LIMIT := by omega
+      simpa using this
+    have e : 5 * (n + 1) + 1 + h = (5 * n + 1 + h) + 4 + 1 := by omega
+    rw [e]
+    have hf' : funcs.find? (fun g => g.name == nm && g.params.length == ([] : List Expr).length) = some f := hf
+    rw [callFunc_unfold funcs d _ nm [] s s f [] hf' hdl (evalArgs_nil funcs d _ _)]
+    have hbud : ((calleeInit f [] s).budget == 0) = false := by
+      have : (calleeInit f [] s).budget = s.budget := rfl
+      rw [this]; have : s.budget ≠ 0 := by omega
+      simpa using this
+    obtain ⟨ih1, ih2⟩ := ih (d + 1) (by omega) nxt hnxt h
+      { (calleeInit f [] s) with budget := s.budget - 1 } (by show n ≤ s.budget - 1; omega)
+    generalize hr : callFunc funcs (d + 1) (5 * n + 1 + h) nxt []
+      { (calleeInit f [] s) with budget := s.budget - 1 } = r at ih1 ih2
+    obtain ⟨r1, r2⟩ := r
+    simp only at ih1 ih2
+    subst ih1
+    have hcm : f.catches.find? (fun cl => catchMatches cl.1 Gen.EXC_RT_RECURSION_LIMIT []) = none := by
+      rw [List.find?_eq_none]
+      intro cl _
+      rw [BlocV.C07.uncatchable_reaches_host cl.1 _ [] (by decide) (by decide) (by decide)]
+      simp
+    have hblock : execBlock funcs (d + 1) (5 * n + 1 + h + 4) f.body f.catches (calleeInit f [] s) =
+        (.err Gen.EXC_RT_RECURSION_LIMIT [], r2) := by
+      have hx : exec funcs (d + 1) (5 * n + 1 + h + 2) (.returnS (some (.fcall nxt []))) (calleeInit f [] s) =
+          (.err Gen.EXC_RT_RECURSION_LIMIT [], r2) := by
+        have hr' : callFunc funcs (d + 1) (5 * n + 1 + h) nxt []
+            { (calleeInit f [] s) with budget := (calleeInit f [] s).budget - 1 } = (.err Gen.EXC_RT_RECURSION_LIMIT [], r2) := hr
+        simp only [exec, hbud, Bool.false_eq_true, if_false, bind_app, eval, hr']
+      have hl : execList funcs (d + 1) (5 * n + 1 + h + 3) [.returnS (some (.fcall nxt []))] (calleeInit f [] s) =
+          (.err Gen.EXC_RT_RECURSION_LIMIT [], r2) := by
+        simp only [execList, bind_app, hx]
+      have hoof : (Gen.EXC_RT_RECURSION_LIMIT == oofCode) = false := by decide
+      simp only [execBlock, hbody, hl, hoof, Bool.false_eq_true, if_false, hcm]
+    rw [hblock]
+    refine ⟨rfl, ?_⟩
+    show r2.budget = s.budget - (n + 1)
+    rw [ih2]
+    show s.budget - 1 - n = s.budget - (n + 1)
+    omega
+
+/-- **The recursion limit holds after every history.** Whatever statements `hist` ran before at the program level (any calls of any
+functions of the table, finished recursions of any depth, calls that failed — at the limit or otherwise —, from any state `c0`, with
+any fuel `k`), in the state they leave:
+* a call attempted by a caller that runs at depth `RECURSION_LIMIT` returns the recursion-limit error at once: no argument is
+  evaluated, no body statement runs, the state (output, budget, variables) is exactly the caller's;
+* a runaway recursion through any cycle `S` (direct, mutual, longer) entered at any depth `d` runs exactly `RECURSION_LIMIT - d`
+  levels, then fails with that error — the same `RECURSION_LIMIT - d` as from a fresh state (`runaway_cycle_stops_at_limit` does not
+  read the history). The model has no per-function cache of contexts: after e310d98 a recycled context is indistinguishable from a
+  new one, and the depth travels with the CALLER (`createEnv`: `r = caller.recursion()`), which is what the family
+  `reclimit-after-cache` of the check ties to the library. -/
+theorem recursion_limit_any_history (funcs : List Func) (k : Nat) (hist : List Stmt) (c0 : St) :
+    (∀ (fuel : Nat) (name : String) (args : List Expr) (f : Func),
+      funcs.find? (fun f => f.name == name && f.params.length == args.length) = some f →
+      callFunc funcs Gen.RECURSION_LIMIT (fuel + 1) name args (execList funcs 0 k hist c0).2 =
+        (.err Gen.EXC_RT_RECURSION_LIMIT, (execList funcs 0 k hist c0).2)) ∧
+    (∀ (S : List String),
+      (∀ nm ∈ S, ∃ f nxt, funcs.find? (fun g => g.name == nm && g.params.length == 0) = some f ∧ nxt ∈ S ∧
+        f.body = [.returnS (some (.fcall nxt []))]) →
+      ∀ (n d : Nat), d + n = Gen.RECURSION_LIMIT → ∀ nm ∈ S, ∀ (h : Nat), n ≤ (execList funcs 0 k hist c0).2.budget →
+        (callFunc funcs d (5 * n + 1 + h) nm [] (execList funcs 0 k hist c0).2).1 = .err Gen.EXC_RT_RECURSION_LIMIT [] ∧
+        (callFunc funcs d (5 * n + 1 + h) nm [] (execList funcs 0 k hist c0).2).2.budget =
+          (execList funcs 0 k hist c0).2.budget - n) :=
+  ⟨fun fuel name args f hf => recursion_limit funcs fuel name args _ f hf,
+   fun S hS n d hd nm hnm h hb => runaway_cycle_stops_at_limit funcs S hS n d hd nm hnm h _ hb⟩
+
+/-- the hypotheses are satisfiable — mutual recursion `function p() begin return q(); end  function q() begin return p(); end`,
+entered at depth 200 (a wrapper put 200 frames below it) after a history that itself ran into the limit: 55 levels, then the error -/
+example :
+    let p : Func := { name := "p", params := [], ret := Ty.int, body := [.returnS (some (.fcall "q" []))], catches := [("OTHERS", [.nop])] }
+    let q : Func := { name := "q", params := [], ret := Ty.int, body := [.returnS (some (.fcall "p" []))], catches := [] }
+    let hist : List Stmt := [.beginS [.doS (.fcall "p" [])] [("OTHERS", [.nop])]]
+    (callFunc [p, q] 200 (5 * 55 + 1 + 0) "q" [] (execList [p, q] 0 3000 hist {}).2).1 = .err Gen.EXC_RT_RECURSION_LIMIT [] := by
+  intro p q hist
+  refine ((recursion_limit_any_history [p, q] 3000 hist {}).2 ["p", "q"] ?_ 55 200 (by decide) "q" (by simp) 0 ?_).1
+  · intro nm hnm
+    simp only [List.mem_cons, List.mem_nil_iff, or_false] at hnm
+    rcases hnm with rfl | rfl
+    · exact ⟨p, "q", by with_unfolding_all rfl, by simp, rfl⟩
+    · exact ⟨q, "p", by with_unfolding_all rfl, by simp, rfl⟩
+  · decide +kernel
+
 /-- `function f(b) begin if b then x = 1; end if; return x; end` — the witness of the stale-local defect of the pinned build -/
 def fStale : Func :=
   { name := "f", params := [("b", Ty.bool)], ret := Ty.int,
